@@ -257,7 +257,7 @@ theorem psum_set : ∀ (l : List Player) (i : Nat) (p p' : Player), l[i]? = some
 def mrankAux (cfg : Cfg) (d : Nat → Bool) : MPc → Nat
   | .begin => 1
   | .done => 0
-  | .pAcq a => 6 + ((chunksOf cfg.cs a).length * 8 + 20)
+  | .pAcq a c => 6 + ((chunksOf c a).length * 8 + 20)
   | .pRaiseRel => 1
   | .pGoSet _ => 4
   | .pOpen _ => 3
@@ -283,7 +283,7 @@ def mrank (cfg : Cfg) (s : State) : Nat := mrankAux cfg (isDone s) s.mpc
 
 /-- weight of a call still to be issued -/
 def cw (cfg : Cfg) : Cmd → Nat
-  | .play a => 7 + ((chunksOf cfg.cs a).length * 8 + 20)
+  | .play a c => 7 + ((chunksOf c a).length * 8 + 20)
   | .ctl _ _ => 4
   | .join _ => 2
   | .close => 12
